@@ -286,7 +286,7 @@ func (p *Prog) Exec(line string) string {
 			out := hex.EncodeToString([]byte(fmt.Sprintf(format, v(1))))
 			ref := "-"
 			verb := format[len(format)-1]
-			if fl, ok := dyadic(v(1)); ok && strings.Contains(format, ".") && strings.IndexByte("eEfFgG", verb) >= 0 {
+			if fl, ok := dyadic(v(1)); ok && (strings.Contains(format, ".") || v(1).IsInf()) && strings.IndexByte("eEfFgG", verb) >= 0 {
 				ref = hex.EncodeToString([]byte(fmt.Sprintf(format, fl)))
 			}
 			return out + " " + ref
@@ -605,7 +605,14 @@ func bigFloatString(f *big.Float) string {
 // dyadic reports whether x is finite, in ToNearestEven mode, and exactly a float64 (so that
 // strconv/fmt applied to that float64 are an oracle for the digits and the layout).
 func dyadic(x *decimal.Decimal) (float64, bool) {
-	if x.IsInf() || x.Mode() != decimal.ToNearestEven {
+	if x.IsInf() {
+		// fmt's layout of ±Inf (sign flags, width, no zero padding) does not depend on the mode
+		if x.Signbit() {
+			return math.Inf(-1), true
+		}
+		return math.Inf(1), true
+	}
+	if x.Mode() != decimal.ToNearestEven {
 		return 0, false
 	}
 	if x.IsZero() {
